@@ -34,6 +34,13 @@ def inputs(ctx):
               + b"POST /x HTTP/1.1\r\nHost: h\r\nTransfer-Encoding: chunked\r\n\r\nxyz\r\n",
               b"".join(A(200, body=b"") for i in range(8)), {"loglevel": 6}))
     L.append(("http09_junk", b"GET /old\r\njunk after\r\n", b"plain old body", {}))
+    # inputs that make the library's containers GROW past their initial sizes (multipart parts list 64, header / parameter / cookie tables 32,
+    # transaction list 16, hook and message lists): the failing allocation is then a realloc of a container that already holds live entries
+    many_parts = b"".join(b"--BB\r\nContent-Disposition: form-data; name=\"f%d\"\r\n\r\nv%d\r\n" % (i, i) for i in range(70)) + b"--BB--\r\n"
+    L.append(("grow_multipart_parts", R(b"POST", b"/m", H + [(b"Content-Type", b"multipart/form-data; boundary=BB")], body=many_parts), A(200, body=b""), {"wholeonly": 1}))
+    L.append(("grow_headers_params", R(b"GET", b"/g?" + b"&".join(b"p%d=%d" % (i, i) for i in range(40)), H + [(b"X-H%d" % i, b"v") for i in range(40)] + [(b"Cookie", b"; ".join(b"c%d=%d" % (i, i) for i in range(40)))]),
+              A(200, hdrs=[(b"X-R%d" % i, b"w") for i in range(40)], body=b"ok"), {"wholeonly": 1}))
+    L.append(("grow_transactions", b"".join(R(b"GET", b"/t%d" % i, H) for i in range(20)), b"".join(A(200, body=b"%d" % i) for i in range(20)), {"wholeonly": 1}))
     if not ctx.quick:
         for f in ("06-uri-normal", "17-multipart-1", "41-auth-digest", "60-request-cookies", "94-compressed-response-multiple", "99-expect-100", "25-small-chunks"):
             arr = streams.parse_t(os.path.join(streams.CORPUS, f + ".t"))
@@ -50,6 +57,8 @@ def run(ctx):
     for name, q, s, cfg in inputs(ctx):
         for mode in (("whole", "byte") if ctx.quick else ("whole", "half", "byte")):
             cfg = dict(cfg)
+            if cfg.pop("wholeonly", 0) and mode != "whole":
+                continue
             if cfg.pop("sep", 0):
                 arr = [(">", p) for p in q.split(b"|")]
                 if mode != "whole":
@@ -91,7 +100,7 @@ def run(ctx):
         "evaluations": execs, "distinct_nontrivial": len(scns), "events_judged": events, "traces_validated_against_impl": execs,
         "allocation_counts": counts,
         "rule": "for each of %d inputs (urlencoded POST with cookies+basic auth, multipart with file, gzip chunked response with absolute URI, pipelined requests with auto-destroy, refused CONNECT, "
-                "Expect/100 with digest auth, invalid input with logging, HTTP/0.9%s) delivered whole and bytewise: fail allocation k for every k in 1..(allocations of the fault-free run) "
+                "Expect/100 with digest auth, invalid input with logging, HTTP/0.9, three container-growth inputs: 70 multipart parts, 40 headers / parameters / cookies, 20 pipelined transactions%s) delivered whole and bytewise: fail allocation k for every k in 1..(allocations of the fault-free run) "
                 "[1-byte delivery: every 3rd k in the quick tier]; each faulted execution is one case, all are distinct (input, delivery, k)" % (len(inputs(ctx)), "" if ctx.quick else ", 7 corpus captures"),
         "samples": [scns[0].text()[:400], scns[len(scns) // 2].text()[:400]],
         "exhaustive": True, "exhaustive_space": "k in 1..N for every (input, whole delivery); N = allocation count of the fault-free run",
